@@ -440,7 +440,10 @@ impl Primitive {
             (Self::Object(o1), Self::Object(o2)) => {
                 return Ok(Primitive::Bool(o1.id_addr() == o2.id_addr()))
             }
-            (Self::Module(m1), Self::Module(m2)) => return Ok(Primitive::Bool(m1 == m2)),
+            (Self::Module(m1), Self::Module(m2)) => {
+                // one module is one export table: two modules that export the same values are two modules
+                return Ok(Primitive::Bool(Gc::ptr_eq(m1, m2)))
+            }
             (Self::Function(f1), Self::Function(f2)) => return Ok(Primitive::Bool(f1 == f2)),
             (Self::Vector(v1), Self::Vector(v2)) => {
                 // the identity of a list is its shared cell, not its buffer: every list without
